@@ -406,8 +406,19 @@ def gen_case(draw):
             v = ("anno", list(t), v)
         names.setdefault(w, []).append(v)
     root_w = draw(st.sampled_from(sorted(names)))
-    k = draw(st.integers(0, 11))
-    if k < 3:
+    k = draw(st.integers(0, 13))
+    if k >= 12:
+        # two Ifs under one operator whose conditions compare the SAME operands (ITE excavation merges related conditions)
+        e, kk = draw(leaf(root_w, names)), draw(leaf(root_w, names))
+        c1 = (draw(st.sampled_from(ir.BV_CMP)), e, kk)
+        c2 = (draw(st.sampled_from(ir.BV_CMP)), e, kk)
+        if draw(st.integers(0, 3)) == 0:
+            c2 = ("not", c1)
+        i1 = ("ite", c1, draw(bv(root_w, 1, names)), draw(bv(root_w, 1, names)))
+        i2 = ("ite", c2, draw(bv(root_w, 1, names)), draw(bv(root_w, 1, names)))
+        op = draw(st.sampled_from(("bvadd", "bvsub", "bvand", "bvor", "bvxor", "bvmul", "ult", "sle", "eq", "ne", "uge")))
+        tree = (op, i1, i2)
+    elif k < 3:
         tree = draw(boolt(3, names))
     elif k < 9:
         tree = draw(bv(root_w, draw(st.integers(1, 3)), names))
